@@ -3,6 +3,7 @@ Core A (codec): the statements of C03 for every message object reachable through
 public API — `Type.New()` or a successful `Decode`, then any setter calls.
 -/
 import Mqtt.Proofs.CodecReachInv
+import Mqtt.Proofs.CodecWireV
 
 set_option linter.unusedSimpArgs false
 set_option linter.unusedVariables false
@@ -372,6 +373,13 @@ theorem run_encodes {o : Origin} {ss : List Setter} {m : Msg} (hr : run o ss = s
     rcases not_excludedV hr hx with hb | hd'
     · exact run_encode_encodes hr hb hd ctr e he
     · rw [hd] at hd'; cases hd'
+
+/-- round trip for every run that is not `ExcludedV` -/
+theorem run_round_trip_encodes {o : Origin} {ss : List Setter} {m : Msg} (hr : run o ss = some m)
+    (hx : ExcludedV o ss = false) (hw : WillOk m) (ctr : UInt64) (e : Encoded) (he : encode m ctr m.len = .ok e)
+    (hwf : Wire.WF (absMsg e.msg)) (rest : Bytes) :
+    ∃ d, decodeNew (absMsg e.msg).type (e.out ++ rest) = .ok d ∧ d.n = e.out.length ∧ absMsg d.msg = absMsg e.msg :=
+  accepts_encodes _ hwf _ (run_encodes hr hx hw ctr e he) rest
 
 /-- the message `Encode` leaves behind: an identifier is assigned only on the dirty path -/
 def assignR (m : Msg) (ctr : UInt64) : Msg := if m.hdr.dirty then assign m ctr else m
